@@ -167,10 +167,19 @@ def reps(ivs):
 
 
 def run_walk(shard, tier, acc):
-    entry = rulesets(tier)[shard[1]]
-    name, types, base = entry[:3]
+    rs = rulesets(tier)
     tree.use()
     gm = tree.imp('lib_guesser.pcfg_grammar')
+    # the ruleset of this shard, then - in the same process, on the same imported modules - the next one: a grammar must not inherit anything
+    # from a grammar that was used before it
+    _walk_one(gm, rs[shard[1]], acc, False)
+    _walk_one(gm, rs[(shard[1] + 1) % len(rs)], acc, True)
+
+
+def _walk_one(gm, entry, acc, second):
+    name, types, base = entry[:3]
+    if second:
+        name = name + ' (second grammar of the process)'
     if len(entry) > 3:
         spec_l, sb_l, sc_l = entry[3]
         root_l = tree.mkdtemp('pcfgmc-c16d-')
@@ -383,6 +392,12 @@ def replay(case):
         run_session('quick', acc)
     else:
         names = [r[0] for r in rulesets('thorough')]
-        run_walk(('walk', names.index(case['ruleset'])), 'thorough', acc)
-    fs = [f for f in acc.failures if all(f['case'].get(k) == v for k, v in case.items() if k in ('draws', 'pt', 'N', 'mode'))]
+        suffix = ' (second grammar of the process)'
+        rname = case['ruleset']
+        if rname.endswith(suffix):
+            idx = (names.index(rname[:-len(suffix)]) - 1) % len(names)
+        else:
+            idx = names.index(rname)
+        run_walk(('walk', idx), 'thorough', acc)
+    fs = [f for f in acc.failures if all(f['case'].get(k) == v for k, v in case.items() if k in ('draws', 'pt', 'N', 'mode', 'ruleset'))]
     return fs[0]['msg'] if fs else None
